@@ -13,6 +13,6 @@ func TestMain(m *testing.M) {
 	os.Exit(rc)
 }
 
-func TestC02(t *testing.T) { core.Run(t, "C02", GenCase("C02"), Exec) }
-func TestC03(t *testing.T) { core.Run(t, "C03", GenCase("C03"), Exec) }
+func TestC02(t *testing.T)       { core.Run(t, "C02", GenCase("C02"), Exec) }
+func TestC03(t *testing.T)       { core.Run(t, "C03", GenCase("C03"), Exec) }
 func TestC03Expiry(t *testing.T) { core.Run(t, "C03", GenExpiry, Exec) }
